@@ -19,7 +19,7 @@ def select(specs: list[HarnessSpec], tier: str, only: list[str] | None) -> list[
         return [s for s in specs if s.name in only]
     if tier == "quick":
         return [s for s in specs if s.tier == "quick"]
-    return list(specs)
+    return [s for s in specs if s.tier in ("quick", "thorough")]
 
 
 def main(argv: list[str]) -> int:
@@ -52,7 +52,9 @@ def main(argv: list[str]) -> int:
         log(f"   encoding regenerated from {core.REPO} in {sc.sync_s:.1f}s; rewrites: {json.dumps(prep.get('rewrites', {}))}")
         log(f"   {len(specs)} harnesses, {jobs} in parallel")
         log_dir = CACHE / "logs" / pid
-        results = run_many(prep["pkg_dir"], prep["target_dir"], specs, log_dir, jobs, prep.get("kani_args"))
+        kani_args = list(prep.get("kani_args") or []) + os.environ.get("VERIF_KANI_ARGS", "").split()
+        prep["kani_args"] = kani_args
+        results = run_many(prep["pkg_dir"], prep["target_dir"], specs, log_dir, jobs, kani_args)
 
         violations, known_hits, inconclusive = [], [], []
         known = [k for k in load_known_findings().get("findings", []) if k.get("property") == pid]
